@@ -471,3 +471,189 @@ def r14_4(ctx, repo):
         ctx.error(rule, '%s: loop constructing the likelihoods not found'
                   % construct)
     ctx.floor(rule, 1)
+
+
+# -----------------------------------------------------------------------------
+# R14.6 — one likelihood per individual, in the order of the ID table
+# -----------------------------------------------------------------------------
+def _ids_alias(e, ids_field='self._ids'):
+    """expression is the ID table itself (or a copy that keeps its order)"""
+    if U(e) == ids_field:
+        return True
+    if isinstance(e, ast.Call) and U(e.func) in (
+            'list', 'copy.copy', 'copy.deepcopy', 'np.array', 'np.asarray',
+            'tuple') and e.args:
+        return _ids_alias(e.args[0], ids_field)
+    if isinstance(e, ast.Subscript) and isinstance(e.slice, ast.Slice) \
+            and e.slice.lower is None and e.slice.upper is None \
+            and e.slice.step is None:
+        return _ids_alias(e.value, ids_field)
+    if isinstance(e, ast.Call) and isinstance(e.func, ast.Attribute) \
+            and e.func.attr == 'copy' and not e.args:
+        return _ids_alias(e.func.value, ids_field)
+    return False
+
+
+def r14_6(ctx, repo):
+    """The hierarchical likelihood pairs likelihood i with row i of the
+    covariate matrix and with the i-th regimen / ID.  All of these tables are
+    built over `self._ids`; the list of likelihoods therefore has exactly one
+    entry per ID, in that order."""
+    rule = 'R14.6'
+    # (1) the IDs handed to the likelihood factory when a population model
+    # is set
+    fn = repo.method(CLS, 'get_log_posterior')
+    construct = CLS + '.get_log_posterior'
+    calls = [c for c in ast.walk(fn) if isinstance(c, ast.Call)
+             and U(c.func) == 'self._create_log_likelihoods' and c.args]
+    if not calls:
+        ctx.error(rule, '%s: call of _create_log_likelihoods not found'
+                  % construct)
+    for c in calls:
+        arg = c.args[0]
+        where = repo.loc(c, CLS, fn.name)
+        cands = []          # (value, under population branch?)
+        if isinstance(arg, ast.Name):
+            for st in ast.walk(fn):
+                if isinstance(st, ast.Assign) and len(st.targets) == 1 \
+                        and U(st.targets[0]) == arg.id \
+                        and st.lineno < c.lineno:
+                    pop = None
+                    cur, child = getattr(st, '_parent', None), st
+                    while cur is not None and cur is not fn:
+                        if isinstance(cur, ast.If):
+                            t = U(cur.test)
+                            inbody = any(child is b for b in cur.body)
+                            if t in ('self._population_model is not None',
+                                     'not self._population_model is None',
+                                     'not (self._population_model is '
+                                     'None)'):
+                                pop = inbody
+                            elif t in ('self._population_model is None',
+                                       'not self._population_model is not '
+                                       'None',
+                                       'not (self._population_model is '
+                                       'not None)'):
+                                pop = not inbody
+                        child, cur = cur, getattr(cur, '_parent', None)
+                    cands.append((st, pop))
+            popdefs = [st for st, pop in cands if pop is True]
+            if not popdefs:
+                # a single unconditional definition serves both cases
+                popdefs = [st for st, pop in cands if pop is None]
+            if not popdefs:
+                ctx.error(rule, '%s: definition of `%s` for the population '
+                          'case not found' % (construct, arg.id))
+                continue
+            values = [st.value for st in popdefs]
+        else:
+            values = [arg]
+        for v in values:
+            if isinstance(v, ast.IfExp):
+                t = U(v.test)
+                if t == 'self._population_model is not None':
+                    v = v.body
+                elif t == 'self._population_model is None':
+                    v = v.orelse
+            if _ids_alias(v):
+                ctx.ok(rule, where, construct,
+                       'with a population model the likelihoods are created '
+                       'for `self._ids`, in its order')
+            else:
+                ctx.violation(
+                    rule, where, construct, 'ids order',
+                    'with a population model the likelihoods are created '
+                    'for `%s` instead of the ID table `self._ids` itself: '
+                    'the covariate matrix, the regimens and the population '
+                    'model\'s n_ids are laid out over self._ids in its '
+                    'order, so likelihood i no longer belongs to row i'
+                    % U(v)[:50])
+    # (2) one entry per ID in the factory
+    fn = repo.method(CLS, '_create_log_likelihoods')
+    construct = CLS + '._create_log_likelihoods'
+    ids_p = [a.arg for a in fn.args.args][1:2]
+    loops = [l for l in ast.walk(fn) if isinstance(l, ast.For)
+             and ids_p and U(l.iter) == ids_p[0]]
+    if len(loops) != 1:
+        ctx.error(rule, '%s: loop over the IDs not found' % construct)
+    else:
+        l = loops[0]
+        apps = [c for c in ast.walk(l) if isinstance(c, ast.Call)
+                and isinstance(c.func, ast.Attribute)
+                and c.func.attr == 'append']
+        skips = [x for x in ast.walk(l) if isinstance(x, (ast.Continue,
+                                                          ast.Break))]
+        where = repo.loc(l, CLS, fn.name)
+        if len(apps) != 1:
+            ctx.error(rule, '%s: expected one append per individual, found '
+                      '%d' % (construct, len(apps)))
+        elif skips:
+            ctx.violation(
+                rule, repo.loc(skips[0], CLS, fn.name), construct,
+                'individual skipped',
+                '`%s` leaves the iteration of an individual without '
+                'appending its likelihood: the list has fewer entries than '
+                'self._ids and every later entry is paired with the wrong '
+                'covariates / ID' % norm_stmt(skips[0]))
+        else:
+            a = apps[0]
+            guards = []
+            cur = getattr(a, '_parent', None)
+            while cur is not None and cur is not l:
+                if isinstance(cur, ast.If):
+                    guards.append(cur)
+                cur = getattr(cur, '_parent', None)
+            ok = True
+            for g in guards:
+                t = g.test
+                made = None
+                if isinstance(t, ast.Compare) and isinstance(
+                        t.ops[0], ast.IsNot) and isinstance(
+                        t.comparators[0], ast.Constant) \
+                        and t.comparators[0].value is None \
+                        and isinstance(t.left, ast.Name):
+                    # `if ll is not None` is vacuous when the maker never
+                    # returns None
+                    for st in ast.walk(l):
+                        if isinstance(st, ast.Assign) and U(
+                                st.targets[0]) == t.left.id and isinstance(
+                                st.value, ast.Call) and U(
+                                st.value.func).startswith('self.'):
+                            made = st.value.func.attr
+                if made is None:
+                    ok = False
+                    ctx.violation(
+                        rule, repo.loc(g, CLS, fn.name), construct,
+                        'conditional append',
+                        'the likelihood of an individual is only appended '
+                        'when `%s` holds: the list can have fewer entries '
+                        'than self._ids, and the covariate rows / IDs / '
+                        'n_ids no longer match it' % U(t)[:50])
+                    continue
+                k, mk = repo.resolve(CLS, made)
+                if mk is None:
+                    ctx.error(rule, '%s: maker %s not found' % (construct,
+                                                                made))
+                    ok = False
+                    continue
+                nones = [r for r in ast.walk(mk) if isinstance(r, ast.Return)
+                         and (r.value is None or (isinstance(
+                             r.value, ast.Constant)
+                             and r.value.value is None))]
+                falls = not isinstance(mk.body[-1], (ast.Return, ast.Raise))
+                if nones or falls:
+                    ok = False
+                    ctx.violation(
+                        rule, repo.loc(nones[0] if nones else mk, CLS, made),
+                        '%s.%s' % (CLS, made), 'individual dropped',
+                        '`%s` can return None for an individual, and '
+                        '_create_log_likelihoods then skips it: the list of '
+                        'likelihoods has fewer entries than self._ids, '
+                        'while the covariate matrix, the regimens and the '
+                        'population model\'s n_ids still count every ID'
+                        % made)
+            if ok:
+                ctx.ok(rule, where, construct,
+                       'exactly one likelihood is appended per ID, in the '
+                       'order of the IDs')
+    ctx.floor(rule, 2)
